@@ -813,20 +813,25 @@ def observe_read(store, validate):
     return {"outcome": "ok", "graph": canon_graph(graph_of_inmem(o, o["metadata"].directed)), "inmem": R.enc_inmem(o)}
 
 
-def observe_build(store, node_mask, edge_mask):
-    """GeffReader(store) with every property loaded, .build(node_mask, edge_mask)"""
+def observe_builds(store, masks):
+    """ONE GeffReader(store) with every property loaded; .build() unmasked, then .build(node_mask, edge_mask) per mask"""
     import geff
 
+    out = []
     try:
         r = geff.GeffReader(store)
         r.read_node_props()
         r.read_edge_props()
-        o = r.build(node_mask=None if node_mask is None else np.array(node_mask, dtype=bool),
-                    edge_mask=None if edge_mask is None else np.array(edge_mask, dtype=bool))
     except BaseException as e:  # noqa: BLE001
-        return {"node_mask": node_mask, "edge_mask": edge_mask, "outcome": C01.exc_class(e), "msg": f"{type(e).__name__}: {e}"[:300]}
-    return {"node_mask": node_mask, "edge_mask": edge_mask, "outcome": "ok",
-            "graph": canon_graph(graph_of_inmem(o, o["metadata"].directed))}
+        return [{"node_mask": None, "edge_mask": None, "outcome": C01.exc_class(e), "msg": f"{type(e).__name__}: {e}"[:300]}]
+    for mk in [{}] + list(masks):
+        nm, em = mk.get("node"), mk.get("edge")
+        try:
+            o = r.build(node_mask=None if nm is None else np.array(nm, dtype=bool), edge_mask=None if em is None else np.array(em, dtype=bool))
+            out.append({"node_mask": nm, "edge_mask": em, "outcome": "ok", "graph": canon_graph(graph_of_inmem(o, o["metadata"].directed))})
+        except BaseException as e:  # noqa: BLE001
+            out.append({"node_mask": nm, "edge_mask": em, "outcome": C01.exc_class(e), "msg": f"{type(e).__name__}: {e}"[:300]})
+    return out
 
 
 def restrict_graph(want, node_mask, edge_mask):
@@ -901,7 +906,7 @@ def dir2_run(case):
         # through GeffReader(...).build(): unmasked, and with the node / edge masks of the case (a masked read selects rows
         # of the offset table; `data` has no per-element axis)
         if "masks" in case:
-            obs["builds"] = [observe_build(store, None, None)] + [observe_build(store, mk.get("node"), mk.get("edge")) for mk in case["masks"]]
+            obs["builds"] = observe_builds(store, case["masks"])
         # through geff.read with every graph-library backend whose domain the graph is in
         obs["backends"] = {}
         want = obs["want"]
@@ -971,7 +976,7 @@ def check_document_names(ck):
 
 # ----------------------------------------------------------------- the check
 def run(ck: common.Check):
-    ck.prove(["GeffProps.C02", "GeffProps.C02Links", "GeffProps.C02History"])
+    ck.prove(["GeffProps.C02", "GeffProps.C02Links", "GeffProps.C02History", "GeffProps.C02Layout"])
     ck.rule = ("graphs as in C01 (bounded-exhaustive small graphs + hand-picked + seeded random; well-formed ones only). "
                "Direction 1: each graph written by write_arrays on MemoryStore x zarr_format 2 and 3 (a sample on "
                "LocalStore/Path), dump decoded by Lean `denote` and by a python raw-zarr decoder. Direction 2: per graph "
@@ -1040,6 +1045,10 @@ def run(ck: common.Check):
             d2.append({"g": gb, "enc": enc, "origin": "strings:blanked:" + c["origin"], "direction": 2})
     # string value classes, bounded-exhaustive: every column over {"", "b"} of length 1..3, N-D, masked; both encodings, both formats
     d2 += RW.string_cases(ck.rng, ck.quick)
+    # LAYOUT FREEDOM of variable-length properties: sections of `data` in every order, with gaps, shared, N-D, masked reads
+    from harness.corr import _c02_layout as LY
+    d2 += LY.layout_cases(ck.rng, ck.quick)
+    d2 += LY.random_layout_cases(ck.rng, 250 if ck.quick else 3000)
     # graphs in the domain of the spatial-graph backend (axes, numeric fixed-shape properties, no missing values)
     sg_warm()
     for _ in range(120 if ck.quick else 1200):
@@ -1149,7 +1158,7 @@ def run(ck: common.Check):
     # ---------------- direction 2 verdicts
     for c, ob in zip(d2, obs2):
         g, enc = c["g"], c["enc"]
-        ck.case(c, "d2:" + (RW.string_tag(c) if c["origin"].startswith("strings:") else feature_tag(c)), nontrivial=bool(g["node_ids"]["flat"]) or bool(g["node_props"]) or bool(g["edge_props"]))
+        ck.case(c, "d2:" + (RW.string_tag(c) if c["origin"].startswith("strings:") else LY.layout_tag(c) if c["origin"].startswith("layout:") else feature_tag(c)), nontrivial=bool(g["node_ids"]["flat"]) or bool(g["node_props"]) or bool(g["edge_props"]))
         if "indep_error" in ob:
             ck.broken.append({"what": "corr C02:independent-writer", "detail": {"case": c, "error": ob["indep_error"]}})
             continue
